@@ -209,7 +209,7 @@ def replay(case: dict, after: Callable[[Any, list, Step], Optional[tuple]], toke
                 expected = list(model)
                 a = op['a'] % n
                 b = min(n - 1, a + op['b'])
-                outside = [i for i in range(n) if i < a or i > b + 1]
+                outside = [i for i in range(n) if i < a or i > b]   # the token right after the range included: it is not being replaced
                 if not outside:
                     continue
                 t = outside[op['t'] % len(outside)]
